@@ -68,6 +68,16 @@ def env():
   return _ENV
 
 
+def tree_cfg():
+  """Which behaviour of the tree under test the model has to mirror (fixes that are not in the
+  pinned tree yet are detected by their witness)."""
+  pg = env()['pg']
+  l = pg.List([0, 0])
+  x = pg.Dict()
+  l[1:2] = [x]
+  return {'f225': l[1] is x}
+
+
 def _prefix(a, b):
   return len(a) <= len(b) and all(x == y and type(x) is type(y) for x, y in zip(a, b))
 
@@ -772,6 +782,13 @@ def run_history(case, check=True, extra=None):
           if n.sym_parent is not None:
             bad = ('not-detached', 'the node removed / replaced by this call still reports a parent '
                    '(sym_path %r)' % str(n.sym_path))
+            break
+      if not bad:
+        # a tree that is stored nowhere must not claim to be inside another one
+        for n in r.roots:
+          if r.is_node(n) and n.sym_parent is not None:
+            bad = ('claims-parent', 'a tree that no container holds reports a parent (sym_path %r)'
+                   % str(n.sym_path))
             break
       if bad:
         fail = {'step': i, 'op': j, 'kind': bad[0], 'what': bad[1]}
